@@ -4,6 +4,7 @@ pub mod agent_parts;
 pub mod c01;
 pub mod c04;
 pub mod c05;
+pub mod c06;
 pub mod c08;
 pub mod c09;
 pub mod c10;
@@ -16,5 +17,5 @@ pub mod c16;
 pub mod e2e;
 
 pub fn all() -> Vec<Property> {
-    vec![c01::property_c01(), c01::property_c02(), c01::property_c03(), c04::property(), c05::property_c05(), c05::property_c18(), c08::property(), c09::property(), c10::property(), c11::property_c11(), c11::property_c17(), c12::property(), c13::property(), c14::property(), c15::property(), c16::property()]
+    vec![c01::property_c01(), c01::property_c02(), c01::property_c03(), c04::property(), c05::property_c05(), c05::property_c18(), c06::property(), c08::property(), c09::property(), c10::property(), c11::property_c11(), c11::property_c17(), c12::property(), c13::property(), c14::property(), c15::property(), c16::property()]
 }
